@@ -124,8 +124,8 @@ def delimiterCheck : List String := ["startswith:_RECORD_DELIMITER"]
 def convertShape : List String := ["Molecule", "NotIn"]
 /-- header.py: (Header field, start, stop, stripped) read from the second line (`time`: via strptime) -/
 def headerFieldSlices : List (String × Nat × Nat × Bool) := [("initials", 0, 2, true), ("program", 2, 10, true), ("time", 10, 20, false), ("dimensions", 20, 22, true), ("scaling_factors", 22, 34, true), ("energy", 34, 46, true), ("registry_number", 46, 52, true)]
-/-- header.py: the Header fields given positionally to `Header(...)` by deserialize = the dataclass field order -/
-def headerCtorOrder : List String := ["mol_name", "initials", "program", "time", "dimensions", "scaling_factors", "energy", "registry_number", "comments"]
+/-- header.py: the dataclass fields of `Header` in order (the adapters construct it positionally) -/
+def headerDataclassFields : List String := ["mol_name", "initials", "program", "time", "dimensions", "scaling_factors", "energy", "registry_number", "comments"]
 /-- header.py: fields written into the second line, in order -/
 def headerWriteOrder : List String := ["initials", "program", "time", "dimensions", "scaling_factors", "energy", "registry_number"]
 /-- header.py: indices of the lines the three parts are read from -/
